@@ -55,7 +55,7 @@ def gen_cases(tier, seed):
                               "theta": 0.6, "zeeman": float(rng.choice([0.0, 0.5])), "s": int(rng.integers(1 << 30)), "group": "cp-%s-%s-%d" % (pk, tk, rep), "cost": 8})
     for rep in range(2 if q else 10):
         cases.append({"type": "storage", "norb": int(rng.choice([3, 4])), "nocc": int(rng.choice([1, 2])), "s": int(rng.integers(1 << 30)),
-                      "level": "sampler", "group": "st-%d" % rep, "cost": 25})
+                      "level": "sampler", "complex": bool(rep % 2), "group": "st-%d" % rep, "cost": 25})
     for rep in range(2 if q else 6):
         cases.append({"type": "storage", "norb": 4, "nocc": 2, "s": int(rng.integers(1 << 30)), "level": "driver",
                       "ad_mode": ["reverse", None, "forward"][rep % 3], "group": "std-%d" % rep, "cost": 60})
@@ -259,6 +259,9 @@ def _closed_shell_pair(case, rng, dt, nw, n_batch=1):
         anti = rng.normal(size=(norb, norb)) * 0.2
         h1 = np.array([h1[0] + anti - anti.T, h1[1] + anti - anti.T])
     mo = np.linalg.qr(rng.normal(size=(norb, nocc)))[0]
+    if case.get("complex") or case["s"] % 4 == 3:
+        # complex trial orbitals (the rhf and uhf routines conjugate them everywhere): still the same closed-shell problem in both formats
+        mo = np.linalg.qr(rng.normal(size=(norb, nocc)) + 1j * rng.normal(size=(norb, nocc)))[0]
     ene0 = float(rng.choice([0.0, -3.0, 2.5]))   # the free-projection reference energy must be irrelevant for phaseless runs of either format
     out = {}
     for wt in ("rhf", "uhf"):
@@ -270,7 +273,7 @@ def _closed_shell_pair(case, rng, dt, nw, n_batch=1):
             trial = wavefunctions.uhf(norb, (nocc, nocc), n_batch=n_batch)
             wd = {"mo_coeff": [jnp.array(mo), jnp.array(mo)]}
             prop = propagation.propagator_unrestricted(dt=dt, n_walkers=nw, n_batch=n_batch)
-        wd["rdm1"] = jnp.array([mo @ mo.T, mo @ mo.T])
+        wd["rdm1"] = jnp.array([mo @ mo.conj().T, mo @ mo.conj().T])
         ham = hamiltonian.hamiltonian(norb)
         hd = trials.ham_data_of(h0, h1, chol, ene0=ene0)
         out[wt] = dict(trial=trial, wave_data=wd, prop=prop, ham=ham, ham_data_raw=hd)
